@@ -48,6 +48,7 @@ struct Ctx {
     Str prop, tier;
     int worker = 0, nworkers = 1;
     bool replay = false;
+    int bonus = getenv("VERIF_BONUS") ? atoi(getenv("VERIF_BONUS")) : 0;   // VERIF_BONUS: added to the main depth / length bound of a check (ad hoc deeper exploration; 0 in the registered tiers)
     bool secondary = false;     // sanitizer flavour pass: reduced sets
     double t_start = 0, t_deadline = 0;
     Stats st;
